@@ -39,9 +39,11 @@ TP = "threadpool"
 GUARDED = ("__nb_threads", "__nb_active_threads", "__nb_pending_task", "_threads", "_thread_id")
 # triaged lock-discipline exceptions (function, attr, access, statement text) -> reason
 TRIAGED = {
-    ("start", "__nb_pending_task", "self.__nb_pending_task += 1"):
+    ("start", "__nb_pending_task", "w"):
         "only over-counts; the growth rule needs pending >= true count, which every interleaving preserves",
-    ("stop", "_threads", "del self._threads[:]"):
+    ("start", "__nb_pending_task", "r"):
+        "the read half of the same read-modify-write",
+    ("stop", "_threads", "w"):
         "all workers have been joined and stop() is the single controller at that point",
 }
 
@@ -325,7 +327,7 @@ def check(ck):
             n7 += 1
             held = cl.held(fi, n)
             stmt = q.stmt_text(n)
-            key = (fi.name, attr, stmt)
+            key = (fi.name, attr, kind)          # by function, field and kind of access - not by the spelling of the statement
             if "__lock" in held:
                 ck.ok("C09.7", "%s: %s self.%s in `%s`" % (q.fn(fi), "write" if kind == "w" else "read", attr, stmt[:40]), "holds self.__lock", q.loc(fi, n))
             elif key in TRIAGED:
